@@ -8,6 +8,7 @@ ids=("$@"); [ ${#ids[@]} -eq 0 ] && ids=($(ls seeded))
 bad=0
 for id in "${ids[@]}"; do
   d=seeded/$id; prop=$(python3 -c "import json;print(json.load(open('$d/meta.json'))['property'])")
+  verdict=$(python3 -c "import json;print(json.load(open('$d/meta.json'))['check_verdict'])")
   P=$d/patch.diff; [ -f $d/patch.rebased.diff ] && P=$d/patch.rebased.diff
   if [ -n "$(git -C $REPO status --porcelain)" ]; then echo "$id: repository copy not clean, stopping"; exit 2; fi
   if ! git -C $REPO apply $PWD/$P 2>/dev/null; then
@@ -16,7 +17,9 @@ for id in "${ids[@]}"; do
   out=$(./check $prop --tier quick 2>&1); rc=$?
   git -C $REPO checkout -- .; git -C $REPO clean -fdq
   cls=$(echo "$out" | grep -m1 "^  class=" | grep -o "class=[^ ]* key=[^ ]*")
-  if [ $rc -eq 1 ] && echo "$out" | grep -q "^VIOLATION property=$prop "; then echo "$id $prop caught $cls"; else echo "$id $prop NOT-CAUGHT rc=$rc $(echo "$out" | grep -m1 HARNESS)"; bad=1; fi
+  if [ $rc -eq 1 ] && echo "$out" | grep -q "^VIOLATION property=$prop "; then echo "$id $prop caught $cls"
+  elif [ "$verdict" = "missed" ] && [ $rc -eq 0 ]; then echo "$id $prop not caught (recorded as a miss: outside what the simulation runs, see meta.json)"
+  else echo "$id $prop NOT-CAUGHT rc=$rc $(echo "$out" | grep -m1 HARNESS)"; bad=1; fi
   for f in replays/${prop}-*.json; do rm -f "$f"; done
 done
 exit $bad
